@@ -327,6 +327,29 @@ func runR(sc *RScn) (*vsched.Exec, time.Duration, string) {
 			took = time.Duration(vsched.Now())
 		})
 		return x, took, info
+	case "rdns-long-path":
+		// the addresses of a three-run request over a 10-hop path (duplicates across runs, unanswered hops in between): the
+		// lookups share ONE lookup timeout, the enrichment does not take one timeout per batch of addresses
+		x := vsched.Run(vsched.Config{MaxVirtual: 10 * time.Minute}, nil, func() {
+			var ips []net.IP
+			for run := 0; run < 3; run++ {
+				for hop := 1; hop <= 10; hop++ {
+					switch {
+					case hop%4 == 0:
+						ips = append(ips, nil)
+					case hop%3 == 0:
+						ips = append(ips, net.IP{198, 51, byte(100 + run), byte(hop)}) // this hop differs per run (load balancing)
+					default:
+						ips = append(ips, net.IP{198, 51, 100, byte(hop)})
+					}
+				}
+				ips = append(ips, net.IP{203, 0, 113, 77})
+			}
+			_, err := reversedns.GetReverseDnsForIPs(ips)
+			info = fmt.Sprint(err)
+			took = time.Duration(vsched.Now())
+		})
+		return x, took, info
 	}
 	return nil, 0, ""
 }
@@ -456,7 +479,7 @@ func pCount(tier string) int {
 
 const pChunk = 343
 
-var rItems = []RScn{{"rdns-one"}, {"rdns-many"}}
+var rItems = []RScn{{"rdns-one"}, {"rdns-many"}, {"rdns-long-path"}}
 
 func init() {
 	F.Check = check
